@@ -228,3 +228,14 @@ class Instance:
 
 def instance(forall, *terms):
     return Instance(forall, *terms)
+
+
+# ---------------------------------------------------------------------------------- the log as ghost heap state
+def log_object():
+    from .values import SV, TObj
+    return SV(TObj("Log"), z3.IntVal(-7))
+
+
+def warned(cx, text):
+    """some WARNING record logged so far mentions `text` (ghost heap field Log.warned, updated by logging.warning)"""
+    return z3.Select(_t(cx.get(log_object(), "warned")), _t(text))
